@@ -220,6 +220,18 @@ impl Sim {
         Ok((*block, *slot))
     }
 
+    /// make the block scanner serve blocks from..=to again (after a crash the node still has them)
+    pub fn serve_blocks(&self, from: u64, to: u64, slot_of_to: u64) {
+        if from > to {
+            return;
+        }
+        let delta = to - slot_of_to;
+        let blocks: Vec<ScannedBlock> = (from..=to)
+            .map(|bn| ScannedBlock::new(format!("block_hash-{bn}"), BlockNumber(bn), SlotNumber(bn - delta), vec![format!("tx_hash-{bn}-1")]))
+            .collect();
+        self.world.block_scanner.add_forwards(vec![blocks]);
+    }
+
     pub async fn current_signed_entity_type(&mut self, d: SignedEntityTypeDiscriminants) -> StdResult<SignedEntityType> {
         let tp = self.observed_time_point().await?;
         let es = self.builder.get_epoch_service().await.map_err(|e| anyhow!("{e:?}"))?;
